@@ -59,7 +59,9 @@ theorem never_rerun_flat_or_clone_source (g : Graph) (s : State) (n w : Nat)
       by_cases c : (g.node n).flat = true <;> simp [a, b, c, h]
   · by_cases a : (s.nd n).rerunDisabled = true <;> simp [a, h]
 
-/-- A setup test whose resulting states are all found in the examining worker's own or the shared
+/-- A setup test whose resulting states are all found in the own pool of the worker the copy was parsed for
+(`g.netOf n w`: the state request carries the parameters of the COPY, so it is that worker's pool that is examined —
+the examining worker's own pool whenever the copy is its own, i.e. always under `OwnerNames`) or the shared
 pool (as far as those scopes are enabled) when it is first examined — nobody of the scope finished
 it, no result in scope yet — is not executed: the decision is `False`, the only request to the state
 control is the `check`, the store is untouched, and reruns are switched off for this copy. -/
@@ -70,11 +72,11 @@ theorem present_not_run (g : Graph) (s : State) (n w : Nat)
     (hnone : (sharedFilteredResults g s n (s.nd n).started).isEmpty = true)
     (hn : n < s.nodes.length)
     (hpresent : (g.node n).sets.all (fun vs =>
-        ((g.node n).scope.contains "own" && (storeGet s.store (g.worker w).id).contains vs) ||
+        ((g.node n).scope.contains "own" && (storeGet s.store (g.worker (g.netOf n w)).id).contains vs) ||
         ((g.node n).scope.contains "shared" && (storeGet s.store "shared").contains vs)) = true) :
-    ∃ s', runDecision g s n w = .ok (false, s', [Event.door (g.worker w).id "check" (g.node n).sets (g.node n).scope true]) ∧
+    ∃ s', runDecision g s n w = .ok (false, s', [Event.door (g.worker (g.netOf n w)).id "check" (g.node n).sets (g.node n).scope true]) ∧
       s'.store = s.store ∧ (s'.nd n).rerunDisabled = true ∧ ∀ m, (s'.nd m).results = (s.nd m).results := by
-  have hscan : scanStates g s n w = (false, [Event.door (g.worker w).id "check" (g.node n).sets (g.node n).scope true]) := by
+  have hscan : scanStates g s n w = (false, [Event.door (g.worker (g.netOf n w)).id "check" (g.node n).sets (g.node n).scope true]) := by
     unfold scanStates
     simp only [hsets, Bool.false_eq_true, if_false]
     simp only [hpresent, Bool.not_true]
